@@ -202,7 +202,7 @@ def inst_receive_walk(cx, iid):
 
 def inst_crc_gate(cx, iid):
     R = cx.R
-    with cx.instance(iid, "T1 GUARD", "no payload reader is called unless the recomputed CRC equals the stored one", floor=9) as inst:
+    with cx.instance(iid, "T1 GUARD", "no payload reader is called unless the recomputed CRC equals the stored one", floor=5) as inst:
         rb = R.body("<frame::Frame as frame::serial::Serialize>::read")
         sinks = call_sites(rb, "re:serial::read_")
         cx.guard(inst, rb, sinks, [[r"eq\(bitor\(.*\),crc::compute\(arg1\[Range\{0,sub\(\[T\]::len\(arg1\),4\)\}\]\)\)"]], construct="payload parsed without CRC match",
@@ -369,6 +369,10 @@ def run(cx):
     window_walks(cx, "C01.l")
     from props.idarith import id_arith_discipline
     id_arith_discipline(cx, "C01.m")
+    # a slot that the window passed is re-opened whatever it held: stale fragments must not be merged into the
+    # packet that maps to the same slot one window later
+    from props.C06 import inst_release
+    inst_release(cx, "C01.n")
 
 
 SELFTEST = [
